@@ -484,6 +484,20 @@ class PassCoverage(PassSpec):
                squash_choice.squash_choice, squash_choice.squash, Optimizer._optimize_skip_rule, Optimizer._is_atomic] if hasattr(Optimizer, "_is_atomic") else []  # noqa: SLF001
         if not fns:
             fns = [unroller.unroll, skippers.skip, skippers._skip, inliners.inline_builtin, inliners.inline_silent_rules, squash_choice.squash_choice, squash_choice.squash, Optimizer._optimize_skip_rule]  # noqa: SLF001
+        # the default pipeline consists of exactly the passes that have preservation schemas: a pass added to
+        # DEFAULT_OPTIMIZER_PASSES has no contract - the property is UNDECIDED for it, never silently accepted
+        # (round-6 seed C08c added a choice "factorizer" to the default passes and C02 stayed green)
+        from pest.grammar.optimizer import DEFAULT_OPTIMIZER, DEFAULT_OPTIMIZER_PASSES
+        from pyvc.engine import OutOfDialect
+
+        contracted = {unroller.unroll: ("unroll", False), skippers.skip: ("skip", True), inliners.inline_builtin: ("inline built-in", False),
+                      squash_choice.squash_choice: ("squash_choice", False), inliners.inline_silent_rules: ("inline silent", False)}
+        for step in [*DEFAULT_OPTIMIZER_PASSES, *DEFAULT_OPTIMIZER.passes]:
+            if step.func not in contracted:
+                raise OutOfDialect(f"optimizer pass {step.name!r} ({getattr(step.func, '__qualname__', step.func)}) of the default pipeline has no preservation contract")
+        run.oblige("default_passes.atomic_only_where_required", all(step.atomic_only or not contracted[step.func][1] for step in DEFAULT_OPTIMIZER_PASSES),
+                   note="the skip pass is sound only where no implicit trivia can match (atomic_only=True)")
+        run.oblige("default_passes.no_predicate_or_fixed_point_surprises", all(step.predicate is None for step in DEFAULT_OPTIMIZER_PASSES))
         want: dict[tuple[str, int], str] = {}
         for f in fns:
             _src, start = inspect.getsourcelines(f)
